@@ -742,7 +742,9 @@ class CacheWorld:
                 self.groups.append(grp)
                 todo.extend(sorted(grp))
             done: set[int] = set()
-            while todo:
+            while todo or len(done) < len(self.entries):
+                if not todo:     # entries that only ever appeared as somebody's recording
+                    todo = [e for e in range(1, len(self.entries) + 1) if e not in done]
                 e = todo.pop()
                 if e in done:
                     continue
@@ -759,18 +761,13 @@ class CacheWorld:
                 if unknown:
                     raise MachineryError("cache entry outside the traced queries: %s" % unknown[:3])
                 self.recpos[e], self.recneg[e] = own.get(e, (set(), set()))
-                # every frame of this evaluation is an entry whose own recordings must be the same
-                # whenever it is evaluated; children are (re-)evaluated as entries of their own
                 recorded = set().union(*[a | b for a, b in own.values()]) if own else set()
                 if recorded != pos | neg:
                     raise MachineryError("recordings not attributed to a query frame: %s vs %s" % (sorted(recorded), sorted(pos | neg)))
-                for d in list(self.recpos[e]) + list(self.recneg[e]):
-                    if d not in done:
-                        todo.append(d)
                 # direct children: sub-queries whose parent frame is e itself; the top-level call may
                 # not reach visit_instance at all (left == right shortcut): then nothing is recorded
                 self.child[e] = set(seen_children.get(e, set()))
-                for d in sorted(self.child[e]):
+                for d in sorted(self.child[e] | self.recpos[e] | self.recneg[e]):
                     if d not in done:
                         todo.append(d)
             self.clear_directly()
@@ -778,9 +775,16 @@ class CacheWorld:
             self.Visitor.visit_instance = orig  # type: ignore[method-assign]
             del self.ts.record_subtype_cache_entry     # instance attributes shadowing the methods
             del self.ts.record_negative_subtype_cache_entry
+        # an evaluation that memoises an answer which is not the fresh answer of the memoised query:
+        # the next such query would be answered from the memo, wrongly (confirmed by replay in main)
+        self.unsound: list[tuple[int, int]] = []
         for e in range(1, len(self.entries) + 1):
-            if any(not self.truth[d] for d in self.recpos[e]) or any(self.truth[d] for d in self.recneg[e]):
-                raise MachineryError("fresh evaluation of entry %d recorded an answer that differs from the fresh answer" % e)
+            for d in sorted(self.recpos[e]):
+                if not self.truth[d]:
+                    self.unsound.append((e, d))
+            for d in sorted(self.recneg[e]):
+                if self.truth[d]:
+                    self.unsound.append((e, d))
         # a group = the top pair's entries plus everything reachable from them
         for gi, grp in enumerate(self.groups):
             reach = set(grp)
@@ -987,15 +991,26 @@ def table_selftest(real: Real, terms: list[Term], types: list[Any]) -> dict[str,
 def run_replay_file(path: str) -> int:
     with open(path) as f:
         rec = json.load(f)["replay"]
-    if rec.get("kind") != "law":
-        print("replay of cache histories: run the check (histories are regenerated deterministically)")
-        return 2
     world = World(rec["decl"])
-    real = Real()
-    types, _ = world.build(rec["terms"])
-    bad, what = real.violated(rec["law"], types)
-    print("%s on %s: %s" % (rec["law"], " | ".join(rec["terms"]), ("VIOLATED: " + what) if bad else "holds"))
-    return 1 if bad else 0
+    if rec.get("kind") == "law":
+        real = Real()
+        types, _ = world.build(rec["terms"])
+        bad, what = real.violated(rec["law"], types)
+        print("%s on %s: %s" % (rec["law"], " | ".join(rec["terms"]), ("VIOLATED: " + what) if bad else "holds"))
+        return 1 if bad else 0
+    if rec.get("kind") == "cache":
+        cw = CacheWorld(world)
+        cw.extract()
+        hist = rec["history"]
+        for st, (a, what) in zip(hist, rec["steps"]):     # entry ids are positional: make sure they still mean the same
+            if a == "q" and cw.describe(st["e"]) != what:
+                print("the tables changed: entry %d is now %s, was %s" % (st["e"], cw.describe(st["e"]), what))
+                return 2
+        prob, conf = cw.replay(hist)
+        print("history %s: %s" % (rec["steps"], prob or conf or "answers and cache contents as specified"))
+        return 1 if (prob or conf) else 0
+    print("nothing to replay in " + path)
+    return 2
 
 
 def main(argv: list[str]) -> int:
@@ -1045,6 +1060,14 @@ def main(argv: list[str]) -> int:
     # ---- 3. cache model: extraction, then TLC in the background while the tables are computed
     cw = CacheWorld(world)
     cw.extract()
+    for e, d in cw.unsound[:5]:
+        hist = [{"a": "q", "e": e, "info": "", "ans": cw.truth[e], "pos": [], "neg": []},
+                {"a": "q", "e": d, "info": "", "ans": cw.truth[d], "pos": [], "neg": []}]
+        prob, _conf = cw.replay(hist)
+        short = [["q", cw.describe(e)], ["q", cw.describe(d)]]
+        if not prob:
+            raise MachineryError("unsound recording %s not confirmed by replay" % short)
+        v.violation("cache:answer:" + json.dumps(short), {"kind": "cache", "decl": decl, "history": hist, "steps": short}, prob)
     disc = cw.flag_discrimination()
     if any(n == 0 for n in disc.values()):
         raise MachineryError("a subtype-kind flag is not discriminated by any asked pair: %r" % disc)
@@ -1131,11 +1154,11 @@ def main(argv: list[str]) -> int:
                 if prob or conf:
                     short = [[st["a"], cw.describe(st["e"]) if st["a"] == "q" else st["info"]] for st in hist]
                     if prob:
-                        v.violation("cache:answer:" + json.dumps(short), {"kind": "cache", "history": hist, "steps": short}, prob)
+                        v.violation("cache:answer:" + json.dumps(short), {"kind": "cache", "decl": decl, "history": hist, "steps": short}, prob)
                     else:
                         conf_problems += 1
                         if conf_problems <= 3:
-                            v.violation("cache:conformance:" + json.dumps(short), {"kind": "cache", "history": hist, "steps": short},
+                            v.violation("cache:conformance:" + json.dumps(short), {"kind": "cache", "decl": decl, "history": hist, "steps": short},
                                         "type_state does not follow SubtypeCache.tla: " + str(conf))
             if not sample_hist:
                 sample_hist.append({"cfg": cfg, "steps": [[st["a"], cw.describe(st["e"]) if st["a"] == "q" else st["info"], st["ans"]] for st in hists[len(hists) // 2]["h"]]})
